@@ -400,23 +400,25 @@ def normIndexArray (n : Nat) (idx : List Int) : R (List Nat) := do
 
 def isIntegral (q : Rat) : Bool := q.den == 1
 
-/-- `set_dtype(value)` with `check=True` -/
-def setDType (h : H1) (d : DType) : R H1 := do
-  if d = h.dtype then pure h
-  else if h.dtype.canCast d then pure { h with dtype := d }
-  else
-    if d.isInt && !h.dtype.isInt then
-      if (h.freq ++ h.err2).any (!isIntegral ·) then throw "non-integer values"
-    match d.intRange with
-    | some (lo, hi) =>
-      if (h.freq ++ h.err2).any fun x => decide ((hi : Rat) < x) || decide (x < (lo : Rat)) then
-        throw "out of range"
-    | none =>
-      match d.floatMax with
-      | some m => if (h.freq ++ h.err2).any fun x => decide (m < x) || decide (x < -m) then
-          throw "out of range"
-      | none => pure ()
-    pure { h with dtype := d }
+/-- every value lies in the representable range of the target dtype -/
+def fitsRange (vals : List Rat) (d : DType) : Bool :=
+  match d.intRange with
+  | some (lo, hi) => vals.all fun x => decide ((lo : Rat) ≤ x) && decide (x ≤ (hi : Rat))
+  | none =>
+    match d.floatMax with
+    | some m => vals.all fun x => decide (-m ≤ x) && decide (x ≤ m)
+    | none => true
+
+/-- the decision of `set_dtype(value)` (`check=True`): a safe cast, or — for an integer target from
+    a float type — all contents and squared errors integral, and in every other case all of them
+    inside the target's range -/
+def setDTypeOk (h : H1) (d : DType) : Bool :=
+  d == h.dtype || h.dtype.canCast d ||
+    ((!(d.isInt && !h.dtype.isInt) || (h.freq ++ h.err2).all isIntegral) && fitsRange (h.freq ++ h.err2) d)
+
+/-- `set_dtype(value)`: validate first, convert afterwards -/
+def setDType (h : H1) (d : DType) : R H1 :=
+  if setDTypeOk h d then pure { h with dtype := d } else throw "dtype change refused"
 
 /-- `copy(include_frequencies=…)` -/
 def copy (h : H1) (withFreq : Bool) : H1 :=
